@@ -585,6 +585,13 @@ func (s *decScope) countedLoop(head *ssa.BasicBlock, body map[*ssa.BasicBlock]bo
 						side = bo.X
 					}
 				}
+				// a counter kept in memory (p.cur++): the exit test loads it and
+				// every back edge is dominated by a store of load(addr) +/- const
+				if ld, ok := side.(*ssa.UnOp); ok && ld.Op == token.MUL {
+					if _, isField := ld.X.(*ssa.FieldAddr); isField && steppedInMemory(ld.X, head, body) {
+						return true
+					}
+				}
 				if phi, ok := side.(*ssa.Phi); ok && phi.Block() == head {
 					// an induction variable: on every back edge it is phi +/- const
 					stepped, all := 0, true
@@ -613,6 +620,50 @@ func (s *decScope) countedLoop(head *ssa.BasicBlock, body map[*ssa.BasicBlock]bo
 		}
 	}
 	return false
+}
+
+// steppedInMemory: every back edge of the loop is dominated, inside the loop,
+// by a store "*addr = *addr +/- k" (k a non-zero constant) to the given field.
+func steppedInMemory(addr ssa.Value, head *ssa.BasicBlock, body map[*ssa.BasicBlock]bool) bool {
+	var steps []*ssa.BasicBlock
+	for b := range body {
+		for _, ins := range b.Instrs {
+			st, ok := ins.(*ssa.Store)
+			if !ok || !sameAddr(st.Addr, addr) {
+				continue
+			}
+			bo, ok := st.Val.(*ssa.BinOp)
+			if !ok || (bo.Op != token.ADD && bo.Op != token.SUB) {
+				return false // the counter is also assigned something else in the loop
+			}
+			ld, ok := bo.X.(*ssa.UnOp)
+			k, isC := constInt(bo.Y)
+			if !ok || ld.Op != token.MUL || !sameAddr(ld.X, addr) || !isC || k == 0 {
+				return false
+			}
+			steps = append(steps, b)
+		}
+	}
+	if len(steps) == 0 {
+		return false
+	}
+	n := 0
+	for _, be := range head.Preds {
+		if !body[be] {
+			continue
+		}
+		n++
+		ok := false
+		for _, sb := range steps {
+			if sb == be || sb.Dominates(be) {
+				ok = true
+			}
+		}
+		if !ok {
+			return false
+		}
+	}
+	return n > 0
 }
 
 func isConsumingCall(call *ssa.Call) bool {
